@@ -2,68 +2,69 @@ import Driver.Util
 import MpcVerif.Model.Mesh
 
 /-!
-Trace validation for C19.  Op line: `c19 <n> <m> <ev,ev,...>` where the events
-are what the `verif` hooks of package p2p recorded during one real mesh setup
-(in the order of a process-wide log):
+Trace validation for C19.  Op line: `c19 <n> <m> <ev,ev,...> [strict]` where the
+events are what the `verif` hooks of package p2p recorded during one real mesh
+setup (in the order of a process-wide log):
 
   j.i        Join of peer i returned             L          leader Connect started
   h.i        peer i sends its hello to the leader
-  a.j.i.k    accept goroutine of j: need[k]-- for the connection (i,k)
-  s.j        accept goroutine of j: connection stored (SetConn/addPeer done)
+  t.j.i.k    accept goroutine of j: hello (i,k) read, need[k] > 0 checked (hook "accepted")
+  a.j.i.k    accept goroutine of j: connection (i,k) stored and need[k]-- done (hook "accdec";
+             the store has no hook of its own, it lies between t and a on the same goroutine
+             and nothing reads the slot before the decrement: replayed as accStore; accDec)
   w.p.k.nd   party p left the wait loop of connect(k) with need[k] = nd
   i.q.c      leader sends network info to q, c = len(Peers)-2
   g.i.c.a    peer i got the info: c other peers, a = numAccept
   d.i.j.k    party i dials j for connection id k
   r.p        Connect of p returned nil
 
-Result: `run=ok end=<final|deadlock|live|error> sbs=<0|1> fused=<ok|no|->` or
-`run=bad@<index>:<event>:<why>`.
+Result: `run=ok end=<final|deadlock|live|error>` or `run=bad@<index>:<event>:<why>`.
 * run=ok: every event is enabled in the model state reached so far and its
-  observed arguments agree with the model (the trace is a run of `Mesh.step`).
+  observed arguments agree with the model (the trace is a run of `Mesh.step`
+  with the events of the code as it is), and at every `r.p` party p is done
+  with a complete table.
 * end: `final` = all parties done, tables complete, nothing in flight;
   `error` = the model took (or can only continue by) an error path;
   `deadlock` = no event enabled; `live` = the run could continue.
-* sbs: a wait loop ended while the party's accept goroutine was between
-  `need[k]--` and the store for the same k ("signal before store").
-* fused: when sbs=0, the same trace with every store moved directly behind
-  its `need[k]--` is a run of the atomic system, every `r.p` finds p's table
-  complete, and it ends final.
 -/
 
 namespace Drv.C19
 open Mpc.Mesh
 
 inductive Tok where
-  | ev (e : Ev) (chk : Cfg → State → Option String)
+  | ev (es : List Ev) (chk : Cfg → State → Option String)
   | ret (p : Nat)
+  | skip
 
 def nats (s : String) : Option (List Nat) :=
   ((s.splitOn ".").drop 1).mapM String.toNat?
 
 def parseTok (t : String) : Option Tok :=
   match t.toList.head?, nats t with
-  | some 'j', some [i] => some (.ev (.join i) fun _ _ => none)
-  | some 'L', some [] => some (.ev .lconnect fun _ _ => none)
-  | some 'h', some [i] => some (.ev (.hello i) fun _ _ => none)
-  | some 'a', some [j, i, k] => some (.ev (.accDec j i k) fun _ _ => none)
-  | some 's', some [j] => some (.ev (.accStore j) fun _ _ => none)
-  | some 'w', some [p, k, nd] => some (.ev (.waitDone p) fun _ s =>
+  | some 'j', some [i] => some (.ev [(.join i)] fun _ _ => none)
+  | some 'L', some [] => some (.ev [.lconnect] fun _ _ => none)
+  | some 'h', some [i] => some (.ev [(.hello i)] fun _ _ => none)
+  | some 't', some [j, i, k] => some (.ev [.accTake j i k] fun _ _ => none)
+  | some 'a', some [j, i, k] => some (.ev [.accStore j, .accDec j] fun _ s =>
+      if s.infl j == .taken i k then none else some "acc-not-taken")
+  | some 's', some [_] => some .skip
+  | some 'w', some [p, k, nd] => some (.ev [(.waitDone p)] fun _ s =>
       match s.phase p with
       | .run k' [] => if k' ≠ k then some "wait-k" else if nd ≠ 0 then some "wait-need" else none
       | _ => some "wait-phase")
-  | some 'i', some [q, cnt] => some (.ev .info fun _ s =>
+  | some 'i', some [q, cnt] => some (.ev [.info] fun _ s =>
       match s.phase 0 with
       | .info (q' :: _) =>
         if q' ≠ q then some "info-peer"
         else if (s.known 0).length ≠ cnt + 2 then some "info-count" else none
       | _ => some "info-phase")
-  | some 'g', some [i, cnt, na] => some (.ev (.recvInfo i) fun _ s =>
+  | some 'g', some [i, cnt, na] => some (.ev [(.recvInfo i)] fun _ s =>
       match s.mail i with
       | some l =>
         if l.length ≠ cnt then some "gotinfo-count"
         else if (l.filter (· < i)).length ≠ na then some "gotinfo-numaccept" else none
       | none => some "gotinfo-nomail")
-  | some 'd', some [i, j, k] => some (.ev (.dial i) fun _ s =>
+  | some 'd', some [i, j, k] => some (.ev [(.dial i)] fun _ s =>
       match s.phase i with
       | .run k' (j' :: _) => if k' ≠ k then some "dial-k" else if j' ≠ j then some "dial-peer" else none
       | _ => some "dial-phase")
@@ -72,34 +73,27 @@ def parseTok (t : String) : Option Tok :=
 
 structure Acc where
   s : State
-  sbs : Bool := false
   err : Option String := none
   idx : Nat := 0
 
-/-- Replay tokens on the model.  `needTable`: a `ret` also requires the
-party's table to be complete (atomic system). -/
-def replay (c : Cfg) (needTable : Bool) (toks : List (String × Tok)) (s0 : State) : Acc :=
+/-- Replay tokens on the model. -/
+def replay (c : Cfg) (toks : List (String × Tok)) (s0 : State) : Acc :=
   toks.foldl (init := { s := s0 }) fun a (name, t) =>
     if a.err.isSome || a.s.bad then a else
     let a := { a with idx := a.idx + 1 }
     match t with
+    | .skip => a
     | .ret p =>
       if a.s.phase p != .done then { a with err := some s!"{a.idx - 1}:{name}:not-done" }
-      else if needTable && !tableComplete c a.s p then { a with err := some s!"{a.idx - 1}:{name}:table" }
+      else if !tableComplete c a.s p then { a with err := some s!"{a.idx - 1}:{name}:table" }
       else a
-    | .ev e chk =>
+    | .ev es chk =>
       match chk c a.s with
       | some why => { a with err := some s!"{a.idx - 1}:{name}:{why}" }
       | none =>
-        let sbs := match e with
-          | .waitDone p =>
-            (match a.s.phase p, a.s.infl p with
-             | .run k [], some (_, k') => k == k'
-             | _, _ => false)
-          | _ => false
-        match step c a.s e with
+        match run c a.s es with
         | none => { a with err := some s!"{a.idx - 1}:{name}:not-enabled" }
-        | some s' => { a with s := s', sbs := a.sbs || sbs }
+        | some s' => { a with s := s' }
 
 def isFinal (c : Cfg) (s : State) : Bool :=
   allDone c s && quiet c s && (List.range c.n).all (tableComplete c s)
@@ -113,60 +107,26 @@ def endOf (c : Cfg) (s : State) (f : Ev → Bool) : String :=
     else if en.any (fun e => match step c s e with | some s' => s'.bad | none => false) then "error"
     else "live"
 
-/-- Move every store directly behind its `need[k]--`: `a.j.i.k` becomes the
-atomic accept, `s.j` disappears. -/
-def fuse (toks : List (String × Tok)) : List (String × Tok) :=
-  toks.filterMap fun (name, t) =>
-    match t with
-    | .ev (.accDec j i k) chk => some (name, .ev (.accept j i k) chk)
-    | .ev (.accStore _) _ => none
-    | t => some (name, t)
+def handleCore (n m tr : String) : String :=
+  match n.toNat?, m.toNat? with
+  | some n, some m =>
+    let c : Cfg := ⟨n, m⟩
+    let names := if tr == "-" then [] else tr.splitOn ","
+    match names.mapM (fun t => (parseTok t).map fun x => (t, x)) with
+    | none => "bad-op"
+    | some toks =>
+      let a := replay c toks (init c)
+      match a.err with
+      | some e => s!"run=bad@{e}"
+      | none => s!"run=ok end={endOf c a.s Ev.real}"
+  | _, _ => "bad-op"
 
-/-- The same syntactic scan as the harness: a `w.p.k.0` while the last
-`a.p._.k'` of p has no `s.p` yet and `k' = k`. -/
-def scanSbs (toks : List (String × Tok)) (names : List String) : Bool :=
-  let _ := toks
-  let r := names.foldl (init := ((fun _ => none : Nat → Option Nat), false)) fun (infl, hit) t =>
-    match t.toList.head?, nats t with
-    | some 'a', some [p, _, k] => (upd infl p (some k), hit)
-    | some 's', some [p] => (upd infl p none, hit)
-    | some 'w', some [p, k, nd] => (infl, hit || (infl p == some k && nd == 0))
-    | _, _ => (infl, hit)
-  r.2
-
-def handleCore (strict : Bool) (n m tr : String) : String :=
-    match n.toNat?, m.toNat? with
-    | some n, some m =>
-      let c : Cfg := ⟨n, m⟩
-      let names := if tr == "-" then [] else tr.splitOn ","
-      match names.mapM (fun t => (parseTok t).map fun x => (t, x)) with
-      | none => "bad-op"
-      | some toks =>
-        let a := replay c false toks (init c)
-        let race := !strict && scanSbs toks names
-        let pre := if race then "race sbs=1 | " else ""
-        match a.err with
-        | some e => s!"{pre}run=bad@{e}"
-        | none =>
-          let e := endOf c a.s Ev.faithful
-          if race then s!"{pre}end={e}" else
-          let fused :=
-            if a.sbs then "-" else
-              let b := replay c true (fuse toks) (init c)
-              match b.err with
-              | some _ => "no"
-              | none => if endOf c b.s Ev.atomic == e then "ok" else "no"
-          s!"run=ok end={e} sbs={if a.sbs then 1 else 0} fused={fused}"
-    | _, _ => "bad-op"
-
-/-- `c19 <n> <m> <trace>`: a recorded session (a trace with the
-signal-before-store pattern is only classified, see the harness);
-`c19 <n> <m> <trace> strict`: a forced-schedule replay of a Lean witness,
-compared exactly. -/
+/-- `c19 <n> <m> <trace>`: a recorded session; a trailing `strict` (forced
+schedule replays) is accepted and changes nothing. -/
 def handle (args : List String) : String :=
   match args with
-  | [n, m, tr] => handleCore false n m tr
-  | [n, m, tr, "strict"] => handleCore true n m tr
+  | [n, m, tr] => handleCore n m tr
+  | [n, m, tr, "strict"] => handleCore n m tr
   | _ => "bad-op"
 
 end Drv.C19
